@@ -7,12 +7,14 @@ Extracted with `ast` from `navis/core/{base,skeleton,mesh,dotprop,voxel,neuronli
     one level; `copy.deepcopy` / `copy_fn` chosen by the `deepcopy` flag → as written), and the literal `no_copy` list;
   * per class: the attributes that get an EXTRA element-wise copy afterwards — a re-binding of `x.__dict__['<a>']` / `x.<a>`
     to a dict / list comprehension whose element is itself a copy (`copy.copy(v)`, `list(v)`, `v.copy()`, `copy.deepcopy(v)`);
-    for these a two-level container (`tags : dict of lists`) is copied two levels deep (`CopyMode.deep1`), every other
-    two-level attribute (`_segments`, `_small_segments` : list of arrays) only one level (`CopyMode.shallow`);
+    (also inside a `for attr in ('_segments', '_small_segments'):` loop over literal attribute names); for these a two-level
+    container (`tags : dict of lists`, `_segments` / `_small_segments` : list of arrays) is copied two levels deep
+    (`CopyMode.deep1`), any two-level attribute without such an extra copy only one level (`CopyMode.shallow`);
   * whether `NeuronList.copy` copies every member (`[n.copy(**kwargs) for n in self.neurons]`).
 
-Output: `lean/NavisModel/Gen/CopySpec.lean`.  `Props/C03.tags_copied_two_levels` (by `decide` over the generated table) is the
-premise of `tags_no_leak`; it stops checking if the element-wise copy of the tag lists is removed from `TreeNeuron.copy`."""
+Output: `lean/NavisModel/Gen/CopySpec.lean`.  `Props/C03.tags_copied_two_levels` / `nested_copied_two_levels` (by `decide` over the
+generated table) are the premises of `tags_no_leak` / `nested_no_leak`; they stop checking if the element-wise copy of the tag
+lists or of the cached segment arrays is removed from `TreeNeuron.copy`."""
 import ast
 from pathlib import Path
 
@@ -58,6 +60,12 @@ def is_copy_of(expr, var):
 
 def analyse_copy(fn):
     generic, no_copy, deep_attrs = None, [], []
+    # `for <name> in ('a', 'b', …):` loops over literal attribute names
+    loop_literals = {}
+    for node in ast.walk(fn):
+        if isinstance(node, ast.For) and isinstance(node.target, ast.Name) and isinstance(node.iter, (ast.Tuple, ast.List)) \
+                and all(isinstance(e, ast.Constant) and isinstance(e.value, str) for e in node.iter.elts):
+            loop_literals[node.target.id] = [e.value for e in node.iter.elts]
     for node in ast.walk(fn):
         if isinstance(node, ast.Assign) and len(node.targets) == 1 and isinstance(node.targets[0], ast.Name) \
                 and node.targets[0].id == 'no_copy':
@@ -76,24 +84,27 @@ def analyse_copy(fn):
             elif isinstance(dc.value, ast.IfExp):
                 generic = 'conditional'
         # x.__dict__['a'] = {k: copy(v) for k, v in …}   /   x.a = [copy(v) for v in …]
+        # also inside `for attr in ('a', 'b'): … x.__dict__[attr] = [copy(v) for v in …]` (loop over literal names)
         if isinstance(node, ast.Assign) and len(node.targets) == 1:
             tg, val = node.targets[0], node.value
-            attr = None
-            if isinstance(tg, ast.Subscript) and isinstance(tg.slice, ast.Constant) and isinstance(tg.slice.value, str) \
-                    and isinstance(tg.value, ast.Attribute) and tg.value.attr == '__dict__':
-                attr = tg.slice.value
+            attrs = []
+            if isinstance(tg, ast.Subscript) and isinstance(tg.value, ast.Attribute) and tg.value.attr == '__dict__':
+                if isinstance(tg.slice, ast.Constant) and isinstance(tg.slice.value, str):
+                    attrs = [tg.slice.value]
+                elif isinstance(tg.slice, ast.Name):
+                    attrs = loop_literals.get(tg.slice.id, [])
             elif isinstance(tg, ast.Attribute) and isinstance(tg.value, ast.Name) and tg.value.id != 'self':
-                attr = tg.attr
-            if attr is None:
+                attrs = [tg.attr]
+            if not attrs:
                 continue
             if isinstance(val, ast.DictComp) and len(val.generators) == 1:
                 t = val.generators[0].target
                 var = t.elts[1].id if isinstance(t, ast.Tuple) and len(t.elts) == 2 and isinstance(t.elts[1], ast.Name) else None
                 if var and is_copy_of(val.value, var):
-                    deep_attrs.append(attr)
+                    deep_attrs += attrs
             elif isinstance(val, ast.ListComp) and len(val.generators) == 1 and isinstance(val.generators[0].target, ast.Name):
                 if is_copy_of(val.elt, val.generators[0].target.id):
-                    deep_attrs.append(attr)
+                    deep_attrs += attrs
     return generic, no_copy, sorted(set(deep_attrs))
 
 
